@@ -95,10 +95,10 @@ impl<'r> Series<'r> {
                 return get_f32_value(self.src, i);
             }
             (Number::Count(1), format::Type::Character, Type::String(len)) => {
-                get_char_value(self.src, len, i)
+                return get_char_value(self.src, len, i);
             }
             (Number::Count(1), format::Type::String, Type::String(len)) => {
-                get_string_value(self.src, len, i)
+                return get_string_value(self.src, len, i);
             }
 
             (_, format::Type::Integer, Type::Int8(len)) => get_i8_array_value(self.src, len, i),
@@ -106,10 +106,10 @@ impl<'r> Series<'r> {
             (_, format::Type::Integer, Type::Int32(len)) => get_i32_array_value(self.src, len, i),
             (_, format::Type::Float, Type::Float(len)) => get_f32_array_value(self.src, len, i),
             (_, format::Type::Character, Type::String(len)) => {
-                get_char_array_value(self.src, len, i)
+                return get_char_array_value(self.src, len, i);
             }
             (_, format::Type::String, Type::String(len)) => {
-                get_string_array_value(self.src, len, i)
+                return get_string_array_value(self.src, len, i);
             }
 
             _ => {
@@ -295,7 +295,7 @@ fn get_f32_array_value(src: &[u8], len: usize, i: usize) -> Option<Option<Value<
     Some(Some(Value::Array(Array::Float(Box::new(values)))))
 }
 
-fn get_string(src: &[u8], len: usize, i: usize) -> Option<&str> {
+fn get_string(src: &[u8], len: usize, i: usize) -> Option<io::Result<&str>> {
     const NUL: u8 = 0x00;
 
     let src = src.get(range::<u8>(i, len))?;
@@ -305,44 +305,52 @@ fn get_string(src: &[u8], len: usize, i: usize) -> Option<&str> {
         None => src,
     };
 
-    Some(
-        str::from_utf8(src)
-            .map_err(|e| io::Error::new(io::ErrorKind::InvalidData, e))
-            .unwrap(), // TODO
-    )
+    Some(str::from_utf8(src).map_err(|e| io::Error::new(io::ErrorKind::InvalidData, e)))
 }
 
-fn get_char_value(src: &[u8], len: usize, i: usize) -> Option<Option<Value<'_>>> {
+fn get_char_value(src: &[u8], len: usize, i: usize) -> Option<Option<io::Result<Value<'_>>>> {
     const MISSING: char = '.';
 
-    let s = get_string(src, len, i)?;
+    let s = match get_string(src, len, i)? {
+        Ok(s) => s,
+        Err(e) => return Some(Some(Err(e))),
+    };
 
     // TODO
     let c = s.chars().next().unwrap();
 
     match c {
         MISSING => Some(None),
-        _ => Some(Some(Value::Character(c))),
+        _ => Some(Some(Ok(Value::Character(c)))),
     }
 }
 
-fn get_char_array_value(src: &[u8], len: usize, i: usize) -> Option<Option<Value<'_>>> {
-    let s = get_string(src, len, i)?;
-    Some(Some(Value::Array(Array::Character(Box::new(s)))))
+fn get_char_array_value(src: &[u8], len: usize, i: usize) -> Option<Option<io::Result<Value<'_>>>> {
+    let result = get_string(src, len, i)?;
+    Some(Some(
+        result.map(|s| Value::Array(Array::Character(Box::new(s)))),
+    ))
 }
 
-fn get_string_value(src: &[u8], len: usize, i: usize) -> Option<Option<Value<'_>>> {
+fn get_string_value(src: &[u8], len: usize, i: usize) -> Option<Option<io::Result<Value<'_>>>> {
     const MISSING: &str = ".";
 
     match get_string(src, len, i)? {
-        MISSING => Some(None),
-        s => Some(Some(Value::String(Cow::from(s)))),
+        Ok(MISSING) => Some(None),
+        Ok(s) => Some(Some(Ok(Value::String(Cow::from(s))))),
+        Err(e) => Some(Some(Err(e))),
     }
 }
 
-fn get_string_array_value(src: &[u8], len: usize, i: usize) -> Option<Option<Value<'_>>> {
-    let s = get_string(src, len, i)?;
-    Some(Some(Value::Array(Array::String(Box::new(s)))))
+fn get_string_array_value(
+    src: &[u8],
+    len: usize,
+    i: usize,
+) -> Option<Option<io::Result<Value<'_>>>> {
+    let result = get_string(src, len, i)?;
+    Some(Some(
+        result.map(|s| Value::Array(Array::String(Box::new(s)))),
+    ))
 }
 
 fn get_genotype_value<'r>(
